@@ -16,6 +16,7 @@ package main
 import (
 	"bytes"
 	"fmt"
+	"math/big"
 	"os"
 	"reflect"
 	"strings"
@@ -187,6 +188,12 @@ func valText(v Val) string {
 	return s
 }
 
+func valTextFull(v Val) string {
+	var sb strings.Builder
+	printVal(&sb, v)
+	return sb.String()
+}
+
 func valEq(a, b Val) bool {
 	if a.K != b.K {
 		return false
@@ -320,18 +327,272 @@ func safeView(f func() string) (s string) {
 // VUnstable is the reply [6 x<description>]
 func VUnstable(desc string) Val { return VL(VI(6), VB([]byte(desc))) }
 
-// stableWrap: fresh bookkeeping for every request; the normal reply unless something kept has changed.
-func stableWrap(f func([]Val) Val) func([]Val) Val {
-	return func(a []Val) Val {
-		stableReset()
-		r := f(a)
-		if d := unstable(); d != "" {
-			stableReset()
-			return VUnstable(d)
-		}
-		stableReset()
-		return r
+// ---- wave 6: history, other objects, spare capacity (notes/aliasing.md, "process-level state") ----
+//
+// Every request is answered from THREE runs of the op on private copies of the arguments:
+//
+//	r1  the run whose reply is returned (what preceded it is the previous request of the batch); after the op's
+//	    function returns, everything kept is compared (verdicts as before), the snapshots are refreshed, decoys()
+//	    uses OTHER objects of every package (decoys.go), and everything kept is compared again: a value or getter
+//	    view that moved while only unrelated objects were in use is always a verdict
+//	r2  the same call again at once (so it is preceded by itself), with every byte-string argument placed in a
+//	    larger array whose spare capacity carries a canary pattern (a read-only function that appends to its
+//	    argument writes into the caller's memory there)
+//	    -- then the op runs on two NEIGHBOUR inputs (a few scattered bytes flipped; replies ignored, panics swallowed):
+//	    a package-level cache or memo keyed by part of the input is primed with a near-identical key --
+//	r3  the same call a third time
+//
+// r1, r2 and r3 must be equal: the library's answer may not depend on what it processed before.  A difference, a
+// damaged canary or a panic in r2 / r3 is the reply [6 x<description>].  VERIF_SINGLE_RUN=1 switches this off
+// (development aid).
+var (
+	reqCount  int
+	spareMode bool
+	spares    []spareRec
+	singleRun = os.Getenv("VERIF_SINGLE_RUN") != ""
+)
+
+type spareRec struct {
+	full []byte
+	n    int
+}
+
+const spareLen = 48
+
+func canary(i int) byte { return 0xA5 ^ byte(i*7) }
+
+// spareCopy: a copy of b with spareLen bytes of canary-filled spare capacity behind it
+func spareCopy(b []byte) []byte {
+	full := make([]byte, len(b)+spareLen)
+	copy(full, b)
+	for i := len(b); i < len(full); i++ {
+		full[i] = canary(i - len(b))
 	}
+	spares = append(spares, spareRec{full, len(b)})
+	return full[:len(b)]
+}
+
+func sparesDamaged() string {
+	for _, s := range spares {
+		for i := s.n; i < len(s.full); i++ {
+			if s.full[i] != canary(i-s.n) {
+				return fmt.Sprintf("a byte-string argument of %d bytes was written to beyond its length (offset %d of its backing array: %02x): the callee appended to or re-sliced a caller's slice", s.n, i, s.full[i])
+			}
+		}
+	}
+	return ""
+}
+
+func cloneVal(v Val, spare bool) Val {
+	switch v.K {
+	case 0:
+		return Val{K: 0, I: new(big.Int).Set(v.I)}
+	case 1:
+		if spare {
+			return Val{K: 1, B: spareCopy(v.B)}
+		}
+		c := make([]byte, len(v.B))
+		copy(c, v.B)
+		return Val{K: 1, B: c[:len(c):len(c)]}
+	}
+	l := make([]Val, len(v.L))
+	for i := range v.L {
+		l[i] = cloneVal(v.L[i], spare)
+	}
+	return Val{K: 2, L: l}
+}
+
+func cloneVals(a []Val, spare bool) []Val {
+	out := make([]Val, len(a))
+	for i := range a {
+		out[i] = cloneVal(a[i], spare)
+	}
+	return out
+}
+
+// neighbour: the arguments with a few scattered bytes flipped.  kind 0 leaves the first 16 bytes of every 188-byte
+// block alone (headers, table ids, lengths stay: the same structure with other PIDs / values / data bytes), kind 1
+// flips inside the first bytes (another PID, another table) as well.
+func neighbourVal(v Val, kind int) Val {
+	switch v.K {
+	case 0:
+		return Val{K: 0, I: new(big.Int).Set(v.I)}
+	case 1:
+		c := make([]byte, len(v.B))
+		copy(c, v.B)
+		pos := []int{19, 24, 29, 34, 45, 60, 100, 160}
+		if kind == 1 {
+			pos = []int{2, 8, 13, 19}
+		}
+		touched := false
+		for base := 0; base < len(c); base += 188 {
+			for _, p := range pos {
+				if base+p < len(c) {
+					c[base+p] ^= 0x01
+					touched = true
+				}
+			}
+		}
+		if !touched && len(c) > 0 {
+			c[len(c)-1] ^= 0x01
+		}
+		return Val{K: 1, B: c[:len(c):len(c)]}
+	}
+	l := make([]Val, len(v.L))
+	for i := range v.L {
+		l[i] = neighbourVal(v.L[i], kind)
+	}
+	return Val{K: 2, L: l}
+}
+
+// runOnce: one run of the op with fresh bookkeeping; desc != "" when something kept moved (before or during decoys)
+func runOnce(f func([]Val) Val, a []Val, withDecoys bool) (r Val, desc string) {
+	stableReset()
+	defer stableReset()
+	r = f(a)
+	if d := unstable(); d != "" {
+		return r, d
+	}
+	if d := sparesDamaged(); d != "" {
+		return r, d
+	}
+	if !singleRun && withDecoys {
+		refreshKept()
+		decoys()
+		if d := movedDuringDecoys(); d != "" {
+			return r, d
+		}
+	}
+	return r, ""
+}
+
+func runQuiet(f func([]Val) Val, a []Val) (r Val, desc string, panicked string) {
+	defer func() {
+		if e := recover(); e != nil {
+			panicked = fmt.Sprint(e)
+			stableReset()
+		}
+	}()
+	r, desc = runOnce(f, a, false)
+	return
+}
+
+// stableWrap: see the comment above.
+func stableWrap(f func([]Val) Val) func([]Val) Val { return stableWrapN(f, 3) }
+
+// runs = 1: r1 only (the long cost.* streams); 2: r1 and r2 (the tot.* groups of C05, 390 k requests per quick run);
+// 3: all of it
+func stableWrapN(f func([]Val) Val, runs int) func([]Val) Val {
+	return func(a []Val) Val {
+		spareMode = false
+		spares = spares[:0]
+		reqCount++
+		// the tot.* groups (runs == 2; 390 k requests per quick run of C05) get the decoy phase on every 8th request only
+		r1, d1 := runOnce(f, cloneVals(a, false), runs >= 3 || reqCount%8 == 0) // a panic here propagates: the observation [2] as before
+		if d1 != "" {
+			return VUnstable(d1)
+		}
+		if singleRun || runs < 2 {
+			return r1
+		}
+		spareMode = true
+		r2, d2, p2 := runQuiet(f, cloneVals(a, true))
+		spareMode = false
+		spares = spares[:0]
+		if p2 != "" {
+			return VUnstable("the same call panicked when it was repeated at once (arguments with spare capacity): " + p2)
+		}
+		if d2 != "" {
+			return VUnstable("on the repeated call: " + d2)
+		}
+		if !valEq(r1, r2) {
+			return VUnstable(fmt.Sprintf("the same call answered differently when repeated at once (the answer depends on what was processed before, or on the capacity of an argument): %s then %s", valText(r1), valText(r2)))
+		}
+		if runs < 3 {
+			return r1
+		}
+		for kind := 1; kind >= 0; kind-- { // the near-identical neighbour (kind 0) last, immediately before r3
+			n := make([]Val, len(a))
+			for i := range a {
+				n[i] = neighbourVal(a[i], kind)
+			}
+			runQuiet(f, n)
+		}
+		r3, d3, p3 := runQuiet(f, cloneVals(a, false))
+		if p3 != "" {
+			return VUnstable("the same call panicked when it was repeated after neighbouring inputs: " + p3)
+		}
+		if d3 != "" {
+			return VUnstable("on the call repeated after neighbouring inputs: " + d3)
+		}
+		if !valEq(r1, r3) {
+			return VUnstable(fmt.Sprintf("the same call answered differently after the library had processed neighbouring inputs (package-level state): %s then %s", valText(r1), valText(r3)))
+		}
+		return r1
+	}
+}
+
+// refreshKept: everything kept is re-snapshotted (what moved so far has been judged by unstable()).
+func refreshKept() {
+	for i := range keptB {
+		keptB[i].snap = append(keptB[i].snap[:0], keptB[i].live...)
+	}
+	for i := range keptI {
+		keptI[i].snap = append(keptI[i].snap[:0], keptI[i].live...)
+	}
+	for i := range keptP {
+		keptP[i].snap = *keptP[i].live
+	}
+	for i := range keptL {
+		k := &keptL[i]
+		k.snap = k.snap[:0]
+		for j := 0; j < k.live.Len(); j++ {
+			k.snap = append(k.snap, identOf(k.live.Index(j)))
+		}
+	}
+	for i := range keptV {
+		keptV[i].snap = safeView(keptV[i].f)
+	}
+}
+
+// movedDuringDecoys: anything kept that differs from its refreshed snapshot changed while only unrelated objects were
+// in use - always a verdict, whatever the label.
+func movedDuringDecoys() string {
+	const why = " while only OTHER objects of the library were being used (package-level buffer, pool or cache shared between objects)"
+	for _, k := range keptB {
+		if !bytes.Equal(k.live, k.snap) {
+			i := firstDiff(k.snap, k.live)
+			return fmt.Sprintf("%s changed%s: byte %d of %d was %02x, now %02x", k.label, why, i, len(k.snap), k.snap[i], k.live[i])
+		}
+	}
+	for _, k := range keptI {
+		for i := range k.snap {
+			if i >= len(k.live) || k.live[i] != k.snap[i] {
+				return fmt.Sprintf("%s changed%s: element %d", k.label, why, i)
+			}
+		}
+	}
+	for _, k := range keptP {
+		if *k.live != k.snap {
+			return fmt.Sprintf("packet %s changed%s", k.label, why)
+		}
+	}
+	for _, k := range keptL {
+		if k.live.Len() != len(k.snap) {
+			return fmt.Sprintf("list %s changed length%s", k.label, why)
+		}
+		for i, id := range k.snap {
+			if identOf(k.live.Index(i)) != id {
+				return fmt.Sprintf("list %s: element %d was replaced%s", k.label, i, why)
+			}
+		}
+	}
+	for _, k := range keptV {
+		if now := safeView(k.f); now != k.snap {
+			return fmt.Sprintf("%s changed%s: was %.60s now %.60s", k.label, why, k.snap, now)
+		}
+	}
+	return ""
 }
 
 // nilTwin: a zero-length argument is tried both as a nil slice and as an empty non-nil slice (Go callers pass either);
